@@ -79,7 +79,7 @@ func (m *gmodel) step(op world.Op) bool {
 		if !m.usable(op.T, op.B) {
 			return false
 		}
-		if op.F&1 == 1 && t.Generic {
+		if op.F&1 == 1 && (t.Generic || t.NoOrigin) {
 			return false // S12: the origin placeholder of a generic method lacks the hidden dictionary argument
 		}
 		g := m.g(op.T)
@@ -165,6 +165,20 @@ func (m *gmodel) step(op world.Op) bool {
 			g.handle, g.handleDead = false, false
 		}
 		g.touched = op.B
+	case "pkglookup":
+		// the lookup that consumes the override must not itself depend on the package, and it must be
+		// a lookup this history may legitimately make (same builder / lookup path rules as a cancel)
+		g := m.g(op.T)
+		if t.Kind == "pkgfunc" || t.Kind == "method" && t.SkipRecv != nil && !t.SkipRecv(op.N) || g.owner == -2 || !m.usable(op.T, op.B) || g.handleMode {
+			return false
+		}
+		if op.N < 0 || op.N >= t.NumHow || (g.how >= 0 && g.how != op.N) {
+			return false
+		}
+		if g.handleDead {
+			g.handle, g.handleDead = false, false // a fresh lookup replaces the cancelled cache entry
+		}
+		g.how, g.touched = op.N, op.B
 	case "call", "checkall", "gc", "grow", "log":
 	default:
 		return false
@@ -221,6 +235,15 @@ func (W) Gen(prop string, seed uint64, tier string) *world.Plan {
 	p.Sched.GCPermille = []int{0, 0, 30, 150}[r.Intn(4)]
 	p.Sched.GrowPermille = []int{0, 0, 30}[r.Intn(3)]
 	p.Sched.MaxGC = 4
+	if prop == "C02" && r.Chance(200) {
+		// fault configuration: mprotect fails with a seeded errno on a few calls; an operation may
+		// then fail, after which the entry must be all-old or all-new and a later Cancel / Reset
+		// must still restore it
+		p.Knobs["faults"] = 1
+		p.Sched.FaultPermille = map[string]int{"mprotect": []int{30, 100}[r.Intn(2)]}
+		p.Sched.FaultKinds = map[string][]int{"mprotect": {1, 2}}
+		p.Sched.MaxFaults = 1 + r.Intn(3)
+	}
 	nB := 1 + r.Intn(3)
 	if prop == "C01" {
 		nB = 1 + r.Intn(2)
@@ -246,23 +269,29 @@ func (W) Gen(prop string, seed uint64, tier string) *world.Plan {
 			tg = append(tg, c)
 		}
 	}
+	if prop == "C12" && r.Chance(500) {
+		tg = append(tg, PkgLocal)
+		if r.Chance(500) {
+			tg = append(tg, PkgOther)
+		}
+	}
 	m := newGModel()
 	nOps := 6 + r.Intn(30)
 	if tier == "thorough" {
 		nOps = 6 + r.Intn(50)
 	}
 	var ops []world.Op
-	// weights per property: apply, ret, when, cancel, reset, call, checkall, gc, grow, dropref, bad, log
+	// weights per property: apply, ret, when, cancel, reset, call, checkall, gc, grow, dropref, bad, log, pkglookup
 	wts := map[string][]int{
-		"C01": {14, 6, 4, 4, 2, 40, 6, 8, 6, 4, 0, 3},
-		"C02": {18, 8, 6, 12, 8, 14, 8, 4, 2, 3, 0, 0},
-		"C06": {16, 8, 6, 6, 4, 30, 10, 4, 2, 2, 0, 0},
-		"C12": {16, 14, 12, 8, 6, 14, 6, 2, 0, 0, 0, 0},
-		"C13": {10, 6, 4, 4, 4, 8, 4, 2, 0, 0, 30, 0},
-		"C19": {14, 8, 8, 4, 3, 30, 6, 2, 0, 0, 0, 10},
+		"C01": {14, 6, 4, 4, 2, 40, 6, 8, 6, 4, 0, 3, 1},
+		"C02": {18, 8, 6, 12, 8, 14, 8, 4, 2, 3, 0, 0, 1},
+		"C06": {16, 8, 6, 6, 4, 30, 10, 4, 2, 2, 0, 0, 1},
+		"C12": {16, 14, 12, 8, 6, 14, 6, 2, 0, 0, 0, 0, 8},
+		"C13": {10, 6, 4, 4, 4, 8, 4, 2, 0, 0, 30, 0, 1},
+		"C19": {14, 8, 8, 4, 3, 30, 6, 2, 0, 0, 0, 10, 1},
 	}[prop]
 	if wts == nil {
-		wts = []int{14, 8, 6, 6, 4, 30, 8, 4, 2, 2, 0, 0}
+		wts = []int{14, 8, 6, 6, 4, 30, 8, 4, 2, 2, 0, 0, 1}
 	}
 	howOf := map[int]int{}
 	for _, t := range tg {
@@ -331,6 +360,8 @@ func (W) Gen(prop string, seed uint64, tier string) *world.Plan {
 			op = world.Op{K: "bad", B: pickB(t), T: t, N: r.Intn(14), V: r.U64(), W: r.U64()}
 		case 11:
 			op = world.Op{K: "log", N: r.Intn(3)}
+		case 12:
+			op = world.Op{K: "pkglookup", B: pickB(t), T: t, N: howOf[t]}
 		}
 		if m.step(op) {
 			ops = append(ops, op)
